@@ -221,7 +221,12 @@ def run(run):
         for (k, m) in ((4, 2), (2, 4), (3, 4), (4, 3)):
             for i in range(shards):
                 jobs.append((["-mode", "dfs", "-k", str(k), "-m", str(m), "-shard", str(i), "-shards", str(shards)], None))
-    nrand = 400 if run.tier == "quick" else 200000
+    nrand = run.scaled(400) if run.tier == "quick" else 200000     # anchor drift: escalated budget
+    if run.tier == "quick" and run.escalate > 1:
+        # ... and the next exhaustive family beyond k,m <= 2
+        for (k, m) in ((3, 2), (2, 3)):
+            for i in range(shards):
+                jobs.append((["-mode", "dfs", "-k", str(k), "-m", str(m), "-shard", str(i), "-shards", str(shards)], None))
     rshards = 4 if run.tier == "quick" else 16
     for i in range(rshards):
         jobs.append((["-mode", "random", "-k", "6", "-m", "6", "-n", str(nrand // rshards), "-seed", str(run.seed * 1000 + i)], None))
